@@ -57,6 +57,9 @@ impl Drop for Chunk {
         let capacity = storage.len();
 
         #[cfg(debug_assertions)]
+        // Verification hook: bounded checkers skip the debug-only poisoning loop (they track
+        // deallocation themselves, and the loop is unrolled at every potential chunk drop).
+        #[cfg(not(woodpile_verif_arena))]
         for i in 0..capacity {
             unsafe { std::ptr::write_volatile(&mut storage[i] as *mut _ as *mut u8, b'\xFC') };
         }
